@@ -10,7 +10,7 @@
 (*          [k |-> "ns", lo (prefix), v (URI)]   [k |-> "attr", sp, lo, v]  *)
 (*          [k |-> "text", v]  [k |-> "comment", v]  [k |-> "pi", lo, v]    *)
 (***************************************************************************)
-EXTENDS XDM, TLC
+EXTENDS StoreFn
 
 CONSTANTS ElemNames,   \* set of [sp, lo]
           AttrNames,   \* set of [sp, lo]
@@ -31,68 +31,26 @@ VARIABLES doc,      \* the tree built so far (XDM document)
 
 vars == <<doc, open, phase, evs>>
 
-RootNode == [k |-> "root", p |-> 0, sp |-> <<>>, lo |-> <<>>, v |-> <<>>]
+Cur == [doc |-> doc, open |-> open, phase |-> phase]
 Top == open[Len(open)]
-Node(k, p, sp, lo, v) == [k |-> k, p |-> p, sp |-> sp, lo |-> lo, v |-> v]
 
-Init == /\ doc = <<RootNode>>
-        /\ open = <<1>>
-        /\ phase = "child"
+Init == /\ doc = St0.doc
+        /\ open = St0.open
+        /\ phase = St0.phase
         /\ evs = <<>>
 
-Room(k) == Len(doc) + k <= MaxNodes /\ Len(evs) < MaxEvents
+\* one Pull() consumed by the store: the event must be admitted by the contract
+Pull(ev, growth) ==
+  /\ Accepts(Cur, ev)
+  /\ Len(doc) + growth <= MaxNodes /\ Len(evs) < MaxEvents
+  /\ LET st == Step(Cur, ev) IN doc' = st.doc /\ open' = st.open /\ phase' = st.phase
+  /\ evs' = Append(evs, ev)
 
-\* the tree after an element start: the element, then one namespace node per binding in
-\* scope at its parent (each element owns its own namespace nodes)
-AfterStart(dd, top, sp, lo) ==
-  LET e == Len(dd) + 1
-      inh == Asc(NsOf(dd, top))
-  IN dd \o <<Node("elem", top, sp, lo, <<>>)>> \o [i \in 1..Len(inh) |-> Node("ns", e, <<>>, dd[inh[i]].lo, dd[inh[i]].v)]
-
-StartElem(nm) ==
-  /\ Len(open) < MaxDepth
-  /\ Room(1 + Cardinality(NsOf(doc, Top)))
-  /\ doc' = AfterStart(doc, Top, nm.sp, nm.lo)
-  /\ open' = Append(open, Len(doc) + 1)
-  /\ phase' = "ns"
-  /\ evs' = Append(evs, [k |-> "elem", sp |-> nm.sp, lo |-> nm.lo])
-
-\* the tree after a namespace declaration on element e: overrides an inherited binding of
-\* the same prefix in place, otherwise adds a node
-AfterNs(dd, e, pre, uri) ==
-  LET same == {m \in NsOf(dd, e) : dd[m].lo = pre}
-  IN IF same # {} THEN [dd EXCEPT ![CHOOSE m \in same : TRUE].v = uri]
-     ELSE Append(dd, Node("ns", e, <<>>, pre, uri))
-
-NsDecl(ns) ==
-  /\ Len(open) > 1 /\ phase = "ns"
-  /\ Room(1)
-  /\ doc' = AfterNs(doc, Top, ns.lo, ns.v)
-  /\ evs' = Append(evs, [k |-> "ns", lo |-> ns.lo, v |-> ns.v])
-  /\ UNCHANGED <<open, phase>>
-
-Attr(nm, val) ==
-  /\ Len(open) > 1 /\ phase \in {"ns", "attr"}
-  /\ Room(1)
-  /\ doc' = Append(doc, Node("attr", Top, nm.sp, nm.lo, val))
-  /\ phase' = "attr"
-  /\ evs' = Append(evs, [k |-> "attr", sp |-> nm.sp, lo |-> nm.lo, v |-> val])
-  /\ UNCHANGED open
-
-Leaf(k, lo, val) ==
-  /\ Room(1)
-  /\ doc' = Append(doc, Node(k, Top, <<>>, lo, val))
-  /\ phase' = "child"
-  /\ evs' = Append(evs, IF k = "pi" THEN [k |-> k, lo |-> lo, v |-> val] ELSE [k |-> k, v |-> val])
-  /\ UNCHANGED open
-
-End ==
-  /\ Len(evs) < MaxEvents
-  /\ IF Len(open) > 1 THEN open' = SubSeq(open, 1, Len(open) - 1)
-     ELSE SurplusEnd /\ open' = open      \* surplus End at the root: the tree is unchanged
-  /\ phase' = "child"
-  /\ evs' = Append(evs, [k |-> "end"])
-  /\ UNCHANGED doc
+StartElem(nm) == Len(open) < MaxDepth /\ Pull([k |-> "elem", sp |-> nm.sp, lo |-> nm.lo], 1 + Cardinality(NsOf(doc, Top)))
+NsDecl(ns) == Pull([k |-> "ns", lo |-> ns.lo, v |-> ns.v], 1)
+Attr(nm, val) == Pull([k |-> "attr", sp |-> nm.sp, lo |-> nm.lo, v |-> val], 1)
+Leaf(k, lo, val) == Pull(IF k = "pi" THEN [k |-> k, lo |-> lo, v |-> val] ELSE [k |-> k, v |-> val], 1)
+End == (Len(open) > 1 \/ SurplusEnd) /\ Pull([k |-> "end"], 0)
 
 Next == \/ \E nm \in ElemNames : StartElem(nm)
         \/ \E ns \in NsDecls : NsDecl(ns)
@@ -111,6 +69,8 @@ Complete == Len(open) = 1
 (***************************************************************************)
 TypeOK == /\ Len(doc) >= 1 /\ open # <<>> /\ open[1] = 1
           /\ phase \in {"ns", "attr", "child"}
+\* the incremental machine and the fold over the whole stream agree
+FoldAgrees == TreeOf(evs) = doc /\ Conforms(evs)
 TreeWellFormed == WellFormed(doc)
 \* each element owns one namespace node per prefix
 NsPrefixUnique == \A e \in Ids(doc) : \A a \in NsOf(doc, e), b \in NsOf(doc, e) : doc[a].lo = doc[b].lo => a = b
